@@ -1,7 +1,7 @@
 """C13 — streams hold exactly the merged appends; stream folds visit each value once (DESIGN §4/C13)."""
 from rules import lib
 from rules.lib import Prov, show, walk, canon_rel
-from props import common
+from props import common, sides, mergetab
 
 LEVEL = ("Mechanism level: each of the four append sites adds exactly one value on the path that records exactly one "
          "state; Stream::add_value always ends in the size check whose error edge is taken iff prev+cur+new >= 1024; "
@@ -12,6 +12,8 @@ LEVEL = ("Mechanism level: each of the four append sites adds exactly one value 
 
 def check(ctx):
     F = ctx.facts("prod")
+    sides.check_sides(ctx, F)
+    mergetab.positions_mapping_table(ctx, F)
     ctx.clause("R-PAIR one append <-> one recorded state at the four append sites")
     ctx.clause("R-MUST/R-CONST/R-OP add_value ends in check_stream_size_limit; STREAM_MAX_SIZE == 1024; error iff sum >= MAX")
     ctx.clause("R-MUST recursive cursor refreshed on every path; fold loop re-assigns cursor_state")
